@@ -55,21 +55,21 @@ fn run(ctx: &RunCtx) -> Report {
         // the first lookups time out before the adaptive timeout has learned the round trip:
         // an application asks again; within 90 s every node must report bootstrapped
         report.probe("slow_link_runs", 1);
+        // (all nodes that still say false ask again together; a node-by-node loop would spend the
+        // whole 90 s on the first nodes of a large network - a false alarm of an earlier version)
         let deadline = sim.now() + 90 * SEC;
-        for (h, op) in boot_ops.iter_mut() {
-            if *h == net.first {
-                continue;
+        loop {
+            let pending: Vec<usize> = (0..boot_ops.len()).filter(|i| boot_ops[*i].0 != net.first && !sim.with_op(boot_ops[*i].1, |o| matches!(o.outcome, Some(Outcome::Bool(true))))).collect();
+            if pending.is_empty() || sim.now() >= deadline {
+                break;
             }
-            while !sim.with_op(*op, |o| matches!(o.outcome, Some(Outcome::Bool(true)))) && sim.now() < deadline {
-                *op = sim.bootstrapped(*h);
-                done = sim.run_ops(&[*op], sim.now() + 30 * SEC) && done;
-                if ctx.verbose {
-                    sim.want_snapshot(*h);
-                    sim.run_for(600 * MS);
-                    let s = sim.snapshot(*h);
-                    println!("retry bootstrapped({}) at t={}ms -> {:?} table={:?} queries={:?} timeout={:?}", sim.node_addr(*h), sim.now() / MS, sim.with_op(*op, |o| matches!(o.outcome, Some(Outcome::Bool(true)))), s.as_ref().map(|s| s.routing_table.size), s.as_ref().map(|s| s.iterative_queries.len()), s.as_ref().map(|s| s.socket.request_timeout_ns / MS));
-                }
+            for i in &pending {
+                boot_ops[*i].1 = sim.bootstrapped(boot_ops[*i].0);
             }
+            let again: Vec<OpId> = pending.iter().map(|i| boot_ops[*i].1).collect();
+            done = sim.run_ops(&again, sim.now() + 30 * SEC) && done;
+            sim.run_for(300 * MS);
+            report.probe("slow_link_retry_rounds", 1);
         }
     }
     sim.run_for(rng.range(1, 20) * SEC);
